@@ -1,8 +1,9 @@
 (* Extraction for the "c17" driver (C17: rhombus-tiling checker).  ExtrOcamlBasic only. *)
-From Koala Require Import Model.Lattice Model.Tiling2.
+From Koala Require Import Model.Lattice Model.Tiling2 Model.DeBruijn.
 Require Extraction.
 Require Import ExtrOcamlBasic.
 Extraction "model.ml"
   mkLattice wf_lattice no_self_loops find_all_plaquettes n_sides
   check_rhombus_tiling zero_crossing all_distinct degrees_ok in_unit_square connected_check
-  no_crossing_check lengths_ok directions_ok faces_ok face_ok len2 reached.
+  no_crossing_check lengths_ok directions_ok faces_ok face_ok len2 reached
+  db_eval face_certs quad_steps mkGrid grid_point start_positions pent_index_raw map_to_position in_window.
